@@ -48,7 +48,7 @@ def gen_faults(rng, clients):
 
 
 def generate(rng, tier):
-    n = dict(quick=160, thorough=8000, search=1500)[tier]
+    n = dict(quick=160, thorough=40000, search=1500)[tier]
     cases = []
     fixed = ['0P0', '0H0', '250H0', '250H0,2600L0', '40P0,1500X0', '-']   # the scenarios of simulation-tests
     for i in range(n):
